@@ -27,6 +27,8 @@ type world struct {
 	p2id                               map[string]uint16
 	byKey                              map[string]*identity
 	A, B, C, D, E384, F521, R, X, U, V *identity
+	G, H, I                            *identity
+	domains                            []string
 }
 
 func newWorld() *world {
@@ -49,6 +51,15 @@ func newWorld() *world {
 	add(7, "dom-a", w.R) // registered, so that only the key type check stands between them and an attribution
 	add(8, "dom-a", w.X)
 	add(300, "", w.C) // empty domain, identifier above one byte
+	// a table spanning several domains: node ids reused across domains, identities under several domains, some only under ""
+	w.G, w.H, w.I = newIdentity("G", "p256"), newIdentity("H", "p256"), newIdentity("I", "p256")
+	add(20, "", w.G) // only under the empty domain
+	add(21, "", w.H) // empty domain and "A"
+	add(1, "A", w.H) // node id 1 again, other domain, other identity
+	add(2, "A", w.I) // "A" and "B", same id
+	add(2, "B", w.I)
+	add(1, "B", w.D) // D: "dom-a" (4) and "B" (1)
+	w.domains = []string{"", "dom-a", "dom-b", "A", "B"}
 	return w
 }
 
@@ -329,6 +340,23 @@ func handshakeCases(w *world, r *prng) []hsCase {
 			continue
 		}
 		add("valid/"+rg.ident.name+"/"+rg.domain, "valid", "attribute", rg.domain, rg.id, valid(rg.ident, rg.domain))
+	}
+	// --- every registered ECDSA identity claiming every domain of the table, freshly signed, binding correct:
+	//     attributed exactly when that very (domain, identity) pair is registered, and then as the node registered for it
+	seen := map[*identity]bool{}
+	for _, rg := range w.regs {
+		id := rg.ident
+		if seen[id] || id.kind == "rsa" || id.kind == "ed25519" {
+			continue
+		}
+		seen[id] = true
+		for _, dom := range w.domains {
+			if node, ok := w.p2id[lookupKey(dom, id.certPEM)]; ok {
+				add("cross/"+id.name+"/"+dom, "valid", "attribute", dom, node, valid(id, dom))
+			} else {
+				add("cross/"+id.name+"/"+dom, "domain", "refuse", "", 0, valid(id, dom))
+			}
+		}
 	}
 	// --- key types
 	add("keytype/rsa", "keytype", "refuse", "", 0, valid(w.R, "dom-a"))
